@@ -11,6 +11,7 @@ RULE = ("capture bodies reading j <= n values by every accessor family (generic,
         "body observes the end of an INDEFINITE parent (it reads the end-of-contents marker) must NOT contain that marker, and reading goes on behind it "
         "(the repaired defect D12; its witness is a corpus case). "
         "non-trivial = something was captured.")
+CROSS = {'C10': 2500, 'C16': 2000, 'C07': 3000, 'C02': 1500}   # cross streams: samples of neighbouring properties' request streams (outcomes, model <-> implementation)
 EXHAUSTIVE = {"quick": False, "thorough": False}
 EXHAUSTIVE_NOTE = {"quick": "", "thorough": ""}
 ASSUMPTIONS = []
